@@ -665,6 +665,16 @@ class Compiler:
     elif isinstance(t, ast.Attribute):
       base = self.expr(t.value)
       self.set_attr(base, self.mangle(t.attr), val)
+    elif isinstance(t, ast.Subscript) and isinstance(t.slice, ast.Slice) and t.slice.lower is None and t.slice.upper is None and t.slice.step is None:
+      base = self.expr(t.value)
+      if not (isinstance(base, SE) and isinstance(base.typ, tuple) and base.typ[0] == "listref"):
+        raise TranslationError("slice assignment on %r" % (base,))
+      lists = base.typ[1]
+      snap = val if isinstance(val, SSnap) else self.snapshot(val)
+      cells = [SE(V(cv)) for cv in snap.cells][:lists.cells]
+      while len(cells) < lists.cells:
+        cells.append(SK(0, 0))
+      self.op(lists, "replace", [base, SE(V(snap.lenvar))] + cells, want=0)
     elif isinstance(t, ast.Subscript):
       base = self.expr(t.value)
       key = self.expr(t.slice)
@@ -1355,6 +1365,29 @@ class Compiler:
     if plain:
       src = self.expr(g.iter)
       return self.snapshot(src)
+    if g is not None and isinstance(g.target, ast.Name) and isinstance(e.elt, ast.Name) and e.elt.id == g.target.id and len(g.ifs) == 1:
+      # [x for x in c if cond(x)]: walk the source one element at a time, keep those for which the condition holds
+      src = self.snapshot(self.expr(g.iter))
+      n = len(src.cells)
+      out_len = self.var("flen")
+      self.assign(out_len, K(0))
+      out = [self.var("fcell") for _ in range(n)]
+      for cv in out:
+        self.assign(cv, K(0))
+      fr = self.frames[-1]
+      for j in range(n):
+        saved = fr.env.get(g.target.id)
+        fr.env[g.target.id] = SE(V(src.cells[j]), src.typ)
+        c = self.cond(g.ifs[0])
+        if saved is None:
+          fr.env.pop(g.target.id, None)
+        else:
+          fr.env[g.target.id] = saved
+        keep = BoolOp("and", [Cmp("lt", K(j), V(src.lenvar)), c])
+        for k2, cv in enumerate(out):
+          self.assign(cv, Ite(BoolOp("and", [keep, Cmp("eq", V(out_len), K(k2))]), V(src.cells[j]), V(cv)))
+        self.assign(out_len, Ite(keep, Bin("add", V(out_len), K(1)), V(out_len)))
+      return SSnap(out_len, out, src.typ)
     raise TranslationError("list comprehension other than [x for x in container]")
 
   def snapshot(self, src):
